@@ -20,7 +20,10 @@ from harness import core
 from harness import pandora_util as pu
 from harness.props.c01 import expected_trace_py
 
-GEN = ["gen_tables", "gen_msconst", "gen_block_loops"]
+# gen_scale_arith: Gen/ScaleArith.v = the arithmetic of run_prepare / matching_cost_prepare / run_multiscale;
+# gen_scale_arith_range: Gen/ScaleArithRange.v = the interval expressions of disparity_range; both translated from the ast
+# (obligations: Proofs/ScaleArithGenP.v, Proofs/ScaleArithRangeGenP.v)
+GEN = ["gen_tables", "gen_msconst", "gen_block_loops", "gen_scale_arith", "gen_scale_arith_range"]
 EXTRACT_FILES = ["X15"]
 DRIVERS = ["x15"]
 RULE = ("random pandora.run executions: sad, window 3/5, images 12..30 x 14..36 (mono, 2-band, with/without masks with "
@@ -46,6 +49,29 @@ ASSUMES = [
 ]
 TRUSTED = ["cst.PANDORA_MSK_PIXEL_INVALID is read from the imported package and given to the model as data",
            "Gen/BlockLoops.v produced by translator/gen_block_loops.py (ast transliteration of the double block loop: split expressions, statements on the running offsets where they stand, slice bounds, arrays resolved to np.zeros / np.full_like / np.copy / sliding_window view / parameter expression; fail closed) and its reading as a program by Lib/BlockSkeleton.v exec (total arrays, slice writes neither clamped nor shape-checked)"]
+
+
+# per-run obligations on Gen/ScaleArith.v and Gen/ScaleArithRange.v (translator/gen_scale_arith.py), proved for ALL inputs
+# in Proofs/ScaleArithGenP.v / Proofs/ScaleArithRangeGenP.v and restated in Props/C15.v (C15_gen_*_is_model)
+SCALE_ARITH_OBLIGATIONS = [
+    "Gen.ScaleArith.run_prepare_params = (num_scales, scale_factor) when both are given, (1, 1) otherwise; "
+    "run_prepare_is_multi = (1 <? self.num_scales) (C15_gen_params_is_model)",
+    "Gen.ScaleArith.run_prepare_multi n sf n sf dmin dmax = model_prepare_multi n sf dmin dmax, i.e. "
+    "Model.Multiscale.run_prepare_interval (/ sf^n), right_interval (negated, swapped), user copies, pyramid of n levels "
+    "of factor sf, current_scale = n - 1 (C15_gen_prepare_multi_is_model, C15_gen_prepare_multi_fields: reflexivity on "
+    "the regenerated text)",
+    "Gen.ScaleArith.matching_cost_prepare = model_mcp (Model.Multiscale.scale_interval x sf, right interval under the "
+    "guard only, cost volumes allocated on the scaled intervals) (C15_gen_matching_cost_prepare_is_model)",
+    "Gen.ScaleArith.run_multiscale = model_msc (user interval x sf handed to disparity_range, current_scale - 1) "
+    "(C15_gen_run_multiscale_is_model)",
+    "Gen.ScaleArithRange.range_{min,max}_{init,invalid} = Model.Multiscale.fallback = int(np.nanmin(disp_min)), "
+    "int(np.nanmax(disp_max)) whatever the two other reductions; range_{min,max}_window = nanmin - marge, nanmax + marge "
+    "= win_range; range_offset = offset; zoom by scale_factor, order 0, mode nearest, skipped for factor 1 "
+    "(C15_gen_disparity_range_is_model)",
+    "the first grids of Model.Multiscale.run_grids = the intervals the generated run_prepare + matching_cost_prepare hand "
+    "to allocate_cost_volume (C15_gen_first_grids); the grids of every finer level of run_grids = next_grids applied to the "
+    "bounds the generated run_multiscale hands to disparity_range (C15_gen_finer_grids_user)",
+]
 
 
 # ---------------------------------------------------------------- case generation
@@ -644,4 +670,4 @@ def run(ctx):
                            "skeleton_wf Gen.BlockLoops.disparity_range = true /\\ ms_skeleton_ok (offsets from int((W-1)/2) of the "
                            "sliding_window's own W, two distinct np.full_like outputs receiving nanmin - marge / nanmax + marge of the "
                            "inner chunk) /\\ sk_B = Gen.MsConst.ms_chunk_size (C15_block_loop_skeleton, vm_compute on the skeleton "
-                           "translator/gen_block_loops.py reads in fixed_zoom_pyramid.py with ast; fail closed)"]
+                           "translator/gen_block_loops.py reads in fixed_zoom_pyramid.py with ast; fail closed)"] + SCALE_ARITH_OBLIGATIONS
